@@ -277,6 +277,9 @@ def rebuild(inp):
     return info, mapping, dec_num(inp['T'])
 
 
+PRE_ELEMENTAL = [False]     # toggled by the harnesses: evaluate once relative to the elements before the recorded evaluation
+
+
 def run_case(info, mapping, T, set_name=SET, units=(), flags=(None,), full_lib=False, decoys=(), want_se=False, dim_pairs=None):
     """mapping: ordered list of (key, count); key is a str, Group or Descriptor (unique as dict keys)."""
     GroupLibrary, Group, Descriptor, ThermochemGroup, Quantity, Error = _imports()
@@ -303,6 +306,14 @@ def run_case(info, mapping, T, set_name=SET, units=(), flags=(None,), full_lib=F
         impl = {'err': {'class': 'internal:' + type(e).__name__}}
     c.est = est
     if est is not None:
+        if PRE_ELEMENTAL[0] and has_mol:
+            # an earlier request relative to the elements on the same estimate object must not change later plain values
+            try:
+                with quiet():
+                    est.get_SoR(T, S_elements=True)
+                    est.get_GoRT(T, S_elements=True)
+            except Exception:
+                pass
         ok = eval_object(est, T, units, flags, info, names, has_mol, dim_pairs)
         ok['range'] = est.get_range()
         ok['n'] = len(est.correlations)
@@ -642,7 +653,8 @@ def synthetic(rng, label, n_groups=6, exact_mode=True, with_uq=False, ranges='so
         rm = ThermochemGroup(ND_H_ref=rng.choice([0.75, 1.5, -2.0, 0.0, 3.0]), ND_S_ref=rng.choice([0.5, 1.25, 2.0, None]),
                              ND_Cp_data={}, T_ref=298.15, range=None)
         uq = {'RMSE': _NS(thermochem=rm), 'descriptors': basis, 'mat': np.array(M, dtype=float), 'dof': rng.randint(1, 200)}
-    lib = GroupLibrary(None, contents, uq)
+    # without uncertainty data the constructor's default argument is used (a shared mutable default must stay empty)
+    lib = GroupLibrary(None, contents, uq) if uq else GroupLibrary(None, contents)
     return LibInfo(label, lib, matlib=None, exact_mode=exact_mode)
 
 
